@@ -369,6 +369,8 @@ def chord_instrument_to_notes(chord, voice, part_name, ins_idx, last_spelling=No
                     dyn = dynamics.Dynamic(n.amp_figure)
                     voice.append(dyn)
                     curr_dynamic = n.amp_figure
+                # A note sounds in this chord: a following continuation ties to it, whatever ended the previous chord
+                old_last_is_silence = False
                 if (last_pitch != old_last_pitch) or (not no_repeat):
                     voice.append(new_note)
                 else:
@@ -407,6 +409,7 @@ def chord_instrument_to_notes(chord, voice, part_name, ins_idx, last_spelling=No
 
     else:
         voice.append(note.Rest(chord.duration))
+        last_is_silence = True
 
     return voice, last_spelling, curr_dynamic, last_pitch, last_is_silence
 
